@@ -475,9 +475,9 @@ class Owner(callbacks.Plugin):
             # The module may be missing from sys.modules if a previous reload
             # failed while importing it.
             module = sys.modules.get(callbacks[0].__module__)
-            if hasattr(module, 'reload'):
-                x = module.reload()
             try:
+                if hasattr(module, 'reload'):
+                    x = module.reload()
                 module = plugin.loadPluginModule(name)
                 if hasattr(module, 'reload') and 'x' in locals():
                     module.reload(x)
